@@ -291,5 +291,35 @@ def generate(repo, outdir, drivers_dir):
                               "items_sha256_16": sha(text), "substitutions": ["std::collections::{BinaryHeap, HashSet} -> crate::shim::{BinaryHeap, HashSet}"]}
     info["extracted"][rel2] = {"sha256_16": sha(src2), "mode": "items: trait ConcurrentSet, OwnedIterator(+Iterator impl)"}
 
+    # --- engine kernels (C05, C14): guard.rs (whole file), CalleeOrder + Mode + NodeDependency + QueryID (items)
+    Q = "crates/qbice/src/"
+    copy(Q + "engine/guard.rs", "guard.rs",
+         subs=[("            tokio::spawn(future);", "            crate::c05::spawn_observer(future);")])
+    rel = Q + "engine/computation_graph/computing.rs"
+    src = read(repo, rel)
+    rel_db = Q + "engine/computation_graph/database.rs"
+    src_db = read(repo, rel_db)
+    rel_q = Q + "query.rs"
+    src_q = read(repo, rel_q)
+    nd = cut_item(src_db, r"^pub enum NodeDependency\b")
+    nd = substitute(nd, [("Encode, Decode, EnumAsInner,", "EnumAsInner,")], rel_db)
+    qid = cut_item(src_q, r"^pub struct QueryID\b")
+    qid = substitute(qid, [("pub struct QueryID {", "#[stable_hash_crate(qbice_stable_hash)]\n#[serialize_crate(qbice_serialize)]\n#[stable_type_id_crate(qbice_stable_type_id)]\npub struct QueryID {")], rel_q)
+    qimpl = cut_item(src_q, r"^impl QueryID\b")
+    qnew = cut_fn(qimpl, "new")
+    qimpl = qimpl.replace(qnew, "    // (fn new<Q: Query> omitted: needs the Query trait)")
+    text = ("// GENERATED from /repo/" + rel + ", " + rel_db + ", " + rel_q + " (items cut verbatim) -- do not edit\n"
+            "#![allow(unused_imports, dead_code)]\n"
+            "use enum_as_inner::EnumAsInner;\nuse qbice_serialize::{Decode, Encode};\nuse qbice_stable_hash::{Compact128, StableHash};\n"
+            "use qbice_stable_type_id::{Identifiable, StableTypeID};\n\n"
+            + qid + "\n\n" + qimpl + "\n\n"
+            + (nd + "\n\n" + cut_item(src, r"^pub struct CalleeOrder\b") + "\n\n" + cut_item(src, r"^impl CalleeOrder\b")
+               ).replace("Vec<", "crate::shim::SVec<").replace("Vec::new()", "crate::shim::SVec::new()") + "\n\n"
+            + cut_item(src, r"^pub enum Mode\b") + "\n")
+    write_if_changed(os.path.join(outdir, "engine_items.rs"), text)
+    info["extracted"][rel] = {"sha256_16": sha(src), "mode": "items: CalleeOrder (+impl), Mode", "substitutions": ["Vec< -> crate::shim::SVec< (inline storage)"]}
+    info["extracted"][rel_db] = {"sha256_16": sha(src_db), "mode": "items: NodeDependency (derive list without Encode/Decode)"}
+    info["extracted"][rel_q] = {"sha256_16": sha(src_q), "mode": "items: QueryID (+impl without fn new<Q: Query>); derive crate-path attributes added"}
+
     write_if_changed(os.path.join(outdir, "tiny_lfu.rs"), "// GENERATED module shell (the real tiny_lfu.rs front needs scc and is outside reach)\npub mod lru;\npub mod policy;\npub mod sketch;\n")
     return info
